@@ -6,13 +6,13 @@ import os
 from .. import common, tlc
 
 
-def run_models(res, models, workers=16):
+def run_models(res, models, workers=16, sequential=False):
     """models: list of (module, cfg, constants-description[, kwargs]).  Run concurrently, sharing the
     cores.  A model-level violation on the current tree is reported by the caller."""
     from concurrent.futures import ThreadPoolExecutor
     if not models:
         return []
-    w = max(2, workers // len(models))
+    w = workers if sequential else max(2, workers // len(models))
 
     def one(m):
         kw = dict(m[3]) if len(m) > 3 else {}
@@ -23,7 +23,7 @@ def run_models(res, models, workers=16):
             raise tlc.MachineryError("vacuous model run %s/%s: actions never taken: %s" % (m[0], m[1], never))
         return r
 
-    with ThreadPoolExecutor(max_workers=len(models)) as ex:
+    with ThreadPoolExecutor(max_workers=1 if sequential else len(models)) as ex:
         out = list(ex.map(one, models))
     for m, r in zip(models, out):
         res.add_model(r, m[2])
@@ -70,7 +70,8 @@ def standard_check(pid, tier, seed, tasks, models, rule, nontrivial, assumptions
     res = common.Result(pid, tier, seed)
     res.rule = rule
     res.assumptions = list(assumptions)
-    mres = run_models(res, models)
+    # thorough-tier models differ a lot in size: one after the other, each with all cores
+    mres = run_models(res, models, sequential=(tier == "thorough"))
     for r in mres:
         if not r["ok"]:
             if model_violation:
